@@ -467,7 +467,7 @@ def explore(a):
         c0 = A._conf_lists(conf)
         try:
             p = FinishedPdu(conf, params)
-        except ValueError:
+        except (ValueError, TypeError):     # too long for the data field / a TLV of a class the list does not take
             p = None
         if [_x_item_view(t) for t in items] != iv0 or A._conf_lists(conf) != c0 or params.file_store_responses is not items:
             return [[0, 4]]
@@ -489,7 +489,7 @@ def explore(a):
         else:
             p.fault_location = items[0] if items else None
         raised = False
-    except ValueError:
+    except (ValueError, TypeError):         # too long for the data field / a TLV of a class the attribute does not take
         raised = True
     s1 = _x_view(kind, p)
     if [_x_item_view(t) for t in items] != iv0 or len(lst) != len(iv0):
@@ -918,7 +918,35 @@ def v_step(v, o):
             w.synced = (true_dlen(v) is not None and x == true_dlen(v))
         elif code in (100, 101) or (inplace and v.alias) or (k == "fin" and code in (17, 18, 20, 23)):
             w.synced = v.synced and true_dlen(v) is not None and true_dlen(v) == true_dlen(w)
+    if refuse is not True and not _in_domain(k, code, r, x, w):
+        refuse = OPEN
     return refuse, w
+
+
+OPEN = "open"       # v_step: the operation would leave the object (or the caller's configuration) with a value outside the
+#                     property's domain -- a flag / code outside its enum, a size / offset / progress the selected width
+#                     cannot hold, a checksum that is not 4 octets, a negative length, an ID of width 0, a list item no TLV
+#                     of that kind can be.  The unchanged library stores such values and refuses (or has no defined output)
+#                     at pack(); refusing the assignment itself with ValueError and staying as it was is as good.  Only when
+#                     the values AFTER the operation are a valid parameter set does the operation have to be accepted.
+
+
+def _in_domain(k, code, r, x, w):
+    """w: the values after the (accepted) operation"""
+    if code == 102:
+        return x >= 0
+    if code == 130:
+        return g(r, 1) in (0, 1)
+    if code == 131:
+        return g(r, 1) in WIDTHS
+    if code in (13, 14, 16) and k in ("fin", "md", "nak"):
+        return True                          # the caller's own list operations: nothing the library could refuse
+    if code == 12 and k in ("fin", "md", "nak"):
+        # the caller builds one more item and appends it to its own list
+        return k == "nak" or (B.valid_resp(list(r)) if k == "fin" else bool(r) and r[0] in h8.TLV_TYPES)
+    if k == "ack" and (w.code not in (4, 5) or w.sub not in (0, 1)):
+        return False                         # only EOF and Finished are acknowledged (the constructor says so already)
+    return body(w) is not None and hdr_ok(w)
 
 
 # ------------------------------------------------------------------ oracle
@@ -1003,6 +1031,9 @@ def oracle(case, ires, sres):
             if refuse is False and refused:
                 return ("C11/%s.history/valid-refused" % name, "%s: operation %s was refused with %s (history %s)"
                         % (who, o[:12], core.ERR_NAMES.get(e[1], e[1]), hist))
+            if refuse is OPEN and refused and len(e) > 1 and e[1] != core.E_VALUE:
+                return ("C11/%s.history/out-of-domain-value-error-class" % name, "%s: operation %s (a value outside the domain) was refused "
+                        "with %s, not with ValueError (history %s)" % (who, o[:12], core.ERR_NAMES.get(e[1], e[1]), hist))
             if not refused:
                 v = w
         # ---- final observation
